@@ -73,6 +73,9 @@ _EXH_VALUES = (-7.25, np.datetime64('1999-12-31', 'D'))
 _DAY0 = np.datetime64('2020-01-01', 'D')
 
 
+TECHNIQUE = 'runtime monitoring: reference implementation of the missing-value operations on cell grids (sfmon/model/c14_refna.py) compared cell by cell over all block layouts'
+
+
 def _exh_value(t, r, c):
     k = 10 * r + c
     if t == 'f':
